@@ -340,5 +340,5 @@ MANIFEST = {
             "a project-level differential between `test`, `update` and the config loader incl. the derived PEP 440 text." % len(PATTERNS),
     "note": "The render/read oracle is a round trip through bumpver's own legacy functions plus a full-match requirement; week "
             "parts are outside the property's list.",
-    "technique": "exhaustive date sweep + property-based testing (Hypothesis); round-trip and differential oracles",
+    "technique": "exhaustive date sweep + property-based testing (Hypothesis); round-trip and differential oracles; plus coverage-guided fuzzing (atheris/libFuzzer) of the same byte decoder and oracle",
 }
